@@ -20,13 +20,16 @@ vars == <<store, disk, hist>>
 Lat(shape) == IF shape \in {2, 3} THEN <<<<8, 0, 0>>, <<8, 16, 0>>, <<0, 0, 24>>>>       \* non-orthogonal, a = 1, 1/2/3
               ELSE <<<<8, 0, 0>>, <<0, 8, 0>>, <<0, 0, 8>>>>
 Line17 == <<3, -8, 0, 7, -1, 5, -6, 1, 8, -3, 2, -5, 6, -2, 4, -7, -4>>
+Line15 == <<2, -7, 5, 0, -1, 7, -3, 1, 6, -5, 3, -2, 4, -6, -4>>                              \* 0 and +-1..+-7
 RList(shape) ==
    CASE shape = 1 -> << <<0, 0, 0>>, <<1, 0, 0>>, <<-1, 0, 0>> >>
      [] shape = 2 -> << <<1, 0, 0>>, <<0, 0, 0>>, <<0, 1, 0>>, <<-1, 0, 0>>, <<0, -1, 0>> >>   \* R0 not first, R/-R apart
      [] shape = 3 -> << <<0, 0, 0>>, <<1, 0, 0>>, <<1, 1, -2>> >>                              \* no -R partners
      [] shape = 4 -> [i \in 1..17 |-> <<Line17[i], 0, 0>>]                                    \* two Ndegen lines
      [] shape = 5 -> << <<0, 0, 0>> >>
-Hermitian(shape) == shape # 3
+     [] shape = 6 -> [i \in 1..15 |-> <<Line15[i], 0, 0>>]                                    \* exactly one full Ndegen line
+     [] shape = 7 -> [i \in 1..16 |-> <<Line17[i], 0, 0>>]                                    \* one full line + one number
+Hermitian(shape) == shape \notin {3, 7}
 HR(R) == R[1] + 5 * R[2] + 25 * R[3]
 P(pat, R, a, b) == ((((HR(R) + 57) * (3 * a + b)) + (pat * a)) % 17) - 8
 Q(pat, R, a, b) == ((((HR(R) + 61) * (a + (2 * b))) + (3 * pat)) % 13) - 6
@@ -51,11 +54,12 @@ SysOf(nw, shape, pat, withAA, withSS, grp) ==
                  x == ("SS" :> VecOf(nw, shape, pat + 1, FALSE))
              IN IF withAA /\ withSS THEN h @@ a @@ x ELSE IF withAA THEN h @@ a ELSE IF withSS THEN h @@ x ELSE h,
     periodic |-> IF grp = 1 THEN <<TRUE, TRUE, FALSE>> ELSE AllPeriodic,
-    pg |-> GroupClosure(Gens(grp))]
+    pg |-> GroupClosure(Gens(grp)),
+    phon |-> (shape = 5 /\ nw % 2 = 1)]                     \* is_phonon: only the npz directory carries it
 GrpOf(nw, shape, pat) == LET g == (nw + shape + pat) % 3 IN IF g = 2 /\ shape \notin {1, 5} THEN 0 ELSE g
 (* parameters of the initial system: the variants are spread over the patterns to keep the family small *)
 Params == {<<nw, shape, pat, aa, ss, grp>> \in NWS \X SHAPES \X PATS \X BOOLEAN \X BOOLEAN \X {0, 1, 2} :
-              /\ (shape = 4 => nw <= 2)
+              /\ (shape \in {4, 6, 7} => nw <= 2)
               /\ ss = (aa /\ pat = 1)
               /\ grp = GrpOf(nw, shape, pat)}
 
@@ -129,8 +133,8 @@ TbClause(e, strict) ==
         /\ LET t == store[e.dst] IN
            /\ SameCore(s, t) /\ SameLattice(s, t)
            /\ (TbCentres(e, strict) => SameCentres(s, t))
-           /\ (e.needAA /\ TbCentres(e, strict) => t.mats["AA"] = s.mats["AA"])
-           /\ DOMAIN t.mats = IF e.needAA THEN {"Ham", "AA"} ELSE {"Ham"}
+           /\ (e.needAA /\ TbCentres(e, strict) => SameTable(s, t, "AA"))
+           /\ (e.needAA => "AA" \in DOMAIN t.mats)
 TbRoundTrip == \A k \in Entries("ReadTb") : TbClause(hist[k], FALSE)
 TbRoundTripNoPrecondition == \A k \in Entries("ReadTb") : TbClause(hist[k], TRUE)      \* sensitivity: must fail when AAZERO = FALSE
 (* _hr.dat + WCC file: never a failure, for every num_wann; Ham, R-vectors, centres (lattice is an argument) *)
@@ -145,9 +149,8 @@ NpzClause(e, strict) ==
    THEN /\ e.err = ""
         /\ LET t == store[e.dst] IN
            /\ SameCore(s, t) /\ SameLattice(s, t) /\ SameCentres(s, t) /\ SameMats(s, t)
-           /\ t.periodic = s.periodic /\ t.pg = s.pg
-   ELSE e.err = "" => LET t == store[e.dst] IN SameCore(s, t) /\ SameLattice(s, t) /\ SameCentres(s, t)
-                                               /\ \A k \in DOMAIN s.mats : t.mats[k] = s.mats[k]
+           /\ t.periodic = s.periodic /\ t.pg = s.pg /\ t.phon = s.phon
+   ELSE e.err = "" => LET t == store[e.dst] IN SameCore(s, t) /\ SameLattice(s, t) /\ SameCentres(s, t) /\ HasMats(s, t)
 NpzRoundTrip == \A k \in Entries("LoadNpz") : NpzClause(hist[k], FALSE)
 NpzRoundTripStrict == \A k \in Entries("LoadNpz") : NpzClause(hist[k], TRUE)           \* sensitivity: stale files of a re-used directory
 (* every reachable system is well formed *)
